@@ -102,12 +102,11 @@ Definition spec_start_enabled (cf : cfg) (p : parent_opt) (gsid gtid : bytes) (s
       (* S7: recording *)
       check (Bool.eqb (so_rec o) (is_recording dec)) "not_recorded:recording_differs_from_decision" ++
       (* the harness' scripted sampler answers what the case says *)
-      match cf_sampler cf with
-      | CScript => check (decision_eqb dec (sr_dec scr) && opt_bytes_eqb sts (sr_ts scr) &&
-                          (nattrs =? match sr_attrs scr with Some l => Z.of_nat (length l) | None => -1 end))
-                         "harness:scripted_result"
-      | _ => []
-      end
+      (if cf_script cf
+       then check (decision_eqb dec (sr_dec scr) && opt_bytes_eqb sts (sr_ts scr) &&
+                   (nattrs =? match sr_attrs scr with Some l => Z.of_nat (length l) | None => -1 end))
+                  "harness:scripted_result"
+       else [])
   end
   end.
 
